@@ -11,8 +11,9 @@ ENVIRONMENT = [
     'ChannelManager.send_pdu / send_control_frame (and below them Host.send_l2cap_pdu, ACL fragmentation = C05, HCI '
     'flow control = C04) are replaced by recording stubs: frames reach the peer unmodified and in order',
     'asyncio: every function of the kernel is synchronous and runs atomically (A1)',
-    'the application sink does not re-enter the channel (A2) and is installed before the peer\'s first K-frame arrives '
-    '(on_pdu with sink None drops the frame without touching the credit ledger: outside the contract)',
+    'the application sink does not re-enter the channel (A2); stream exactness needs the sink to be installed before the '
+    'first SDU completes: an SDU completed without a sink is dropped as a whole by design (contract on_pdu@no-sink proves '
+    'that such frames are still counted in the credit ledger and keep reassembly framed)',
     'write sizes and SDU lengths are >= 1 (the statement\'s quantifier): a zero-length SDU is outside the on_pdu contract '
     '(in_sdu_length == 0 doubles as "length unknown"; natively such an SDU wedges the reassembly, see notes/C07/NOTES.md)',
     'the peer announces MTU/MPS in their legal ranges (the request/response handlers do not validate them); only '
@@ -212,6 +213,46 @@ contract(
     ensures_names=ON_PDU_NAMES,
     modifies=['self.in_sdu', 'self.in_sdu_length', 'self.peer_credits', 'ghost.sunk', 'ghost.nsdu', 'ghost.last', 'ghost.cr_frames', 'ghost.cr_total', 'ghost.cr_cid', 'ghost.cr_last'],
     inline=['L2CAP_Control_Frame.*', 'LeCreditBasedChannel.send_control_frame', 'L2CAP_LE_Flow_Control_Credit.*'],
+)
+
+
+def on_pdu_no_sink_post(self, pdu, old, ghost):
+    """no application sink yet: a completed SDU may be dropped as a whole (documented), but every K-frame still costs
+    the peer one credit (Core Vol 3 Part A 10.1) and reassembly stays framed"""
+    b = rx_buf(old.self) + pdu
+    refill = old.self.peer_credits - 1 <= self.peer_credits_threshold
+    return [
+        wf_rx(self),
+        ghost.nsdu == old.ghost.nsdu and ghost.sunk == old.ghost.sunk,
+        implies(rs_complete(b) or rs_overflow(b), self.in_sdu is None and self.in_sdu_length == 0),
+        implies(rs_pending(b), self.in_sdu is not None and self.in_sdu == b),
+        wf_ledger(self),
+        self.peer_credits == ite(refill, self.peer_max_credits, old.self.peer_credits - 1),
+        ghost.cr_frames == old.ghost.cr_frames + ite(refill, 1, 0),
+        implies(refill, ghost.cr_cid == self.source_cid and 1 <= ghost.cr_last and ghost.cr_last <= 65535),
+        self.peer_credits == old.self.peer_credits - 1 + (ghost.cr_total - old.ghost.cr_total),
+    ]
+
+
+contract(
+    'bumble.l2cap:LeCreditBasedChannel.on_pdu',
+    key='bumble.l2cap:LeCreditBasedChannel.on_pdu@no-sink',
+    prop='C07',
+    params=dict(self=Inst('bumble.l2cap:LeCreditBasedChannel', sink=OneOf(None)), pdu=Bytes),
+    ghost=RX_GHOST,
+    requires=lambda self, pdu: [
+        self.sink is None,
+        wf_rx(self),
+        wf_ledger(self),
+        self.peer_max_credits <= 65535,
+        implies(len(rx_buf(self) + pdu) >= 2, le16(rx_buf(self) + pdu) >= 1),
+    ],
+    ensures=on_pdu_no_sink_post,
+    ensures_names=['wf-short', 'wf-known', 'nothing-delivered', 'clean-after-sdu', 'in-progress', 'peer-holds-a-credit', 'ledger',
+                   'credit-frame-iff-threshold', 'credit-frame-names-source-cid', 'credits-conserved'],
+    modifies=['self.in_sdu', 'self.in_sdu_length', 'self.peer_credits', 'ghost.cr_frames', 'ghost.cr_total', 'ghost.cr_cid', 'ghost.cr_last'],
+    inline=['L2CAP_Control_Frame.*', 'LeCreditBasedChannel.send_control_frame', 'L2CAP_LE_Flow_Control_Credit.*'],
+    note='frames that arrive before the application installed its sink (unavoidable on the initiator side when the acceptor talks first)',
 )
 
 
